@@ -24,9 +24,11 @@ def async_sources(tier, seed=0):
     core = [
         ("H1", H.H1((1, 6), (1, 1, 3))), ("H2.L", H.H2("LATEST", (1, 6), (1, 1, 3))), ("H2.B", H.H2("BUFFER", (1, 6), (1, 1, 3))),
         ("H3", H.H3((1, 6), (1, 1, 3))), ("H4", H.H4((1, 6), (1, 1, 3))), ("H5", H.H5((1, 3), (1, 1, 3))),
+        ("H6", H.H6()), ("H6b", H.H6b()), ("H7", H.H7()), ("L3", H.L3()),
     ]
     for n, s in core:
-        out.append(dict(kind="async", name=f"async.{n}.2eps", spec=s, user=TWO, policy="prio"))
+        # (a sink is only scheduled by a fair policy: nothing the supervisor waits for depends on it)
+        out.append(dict(kind="async", name=f"async.{n}.2eps", spec=s, user=TWO, policy="rr" if n == "L3" else "prio"))
     out.append(dict(kind="async", name="async.H4.3eps.rr", spec=H.H4((1, 6), (1, 1, 3)), user=THREE, policy="rr"))
     out.append(dict(kind="async", name="async.H1.1eps.rev", spec=H.H1((1, 6)), user=EP5, policy="rev"))
     fam = list(H.fasync_family(1))
@@ -59,6 +61,12 @@ def gen_sources(tier, seed=0):
             continue
         s = H.spec({"a": H.node(ra, 1), "b": H.node(rb, 2 if rb <= 8 else 1)}, [H.edge("a", "b", window=w, skip=False, comm=1), H.edge("b", "a", skip=True, window=1 + (w % 2), comm=1)] if sk else [H.edge("a", "b", window=w, comm=1)], "b")
         out.append(dict(kind="gen", name=f"gen.2n.{ra}-{rb}.w{w}{'.cyc' if sk else ''}", spec=_static(s), ts_max=0.75, episodes=2, seed=i))
+    # trainable delays: the window is extended by ceil(rate_of_the_producer * (max - min))
+    for (ra, rb) in [(32, 8), (8, 32), (16, 16)]:
+        for w in (1, 2):
+            st = _static(H.spec({"a": H.node(ra, 1), "b": H.node(rb, 1)}, [H.edge("a", "b", window=w, comm=1)], "b"))
+            st["edges"][0]["comm"] = {"trainable": [2, 0, 6], "nominal": 0}
+            out.append(dict(kind="gen", name=f"gen.trainable.{ra}-{rb}.w{w}", spec=st, ts_max=0.75, episodes=2, seed=ra + w))
     s3 = H.spec({"a": H.node(16, 1), "c": H.node(8, 1), "b": H.node(8, 2)}, [H.edge("a", "b", window=2, comm=1), H.edge("c", "b", window=1, comm=2), H.edge("b", "c", skip=True, comm=1)], "b")
     out.append(dict(kind="gen", name="gen.3n.fan.cyc", spec=_static(s3), ts_max=0.8125, episodes=2, seed=7))
     sn = copy.deepcopy(_static(s3))
@@ -105,6 +113,22 @@ def raw_sources(tier, seed=0):
             eps.append(_timeline({"a": (2, 0, 1), "b": (2, 1, 1), "c": (4, 3, 2)}, [("a", "b", (0, 1), False), ("b", "c", (0,), False), ("c", "a", (1,), True)], {"a": na, "b": nb, "c": nc}))
         s = H.spec({"a": H.node(16, 1), "b": H.node(16, 1), "c": H.node(8, 2)}, [H.edge("a", "b", window=w1), H.edge("b", "c", window=w2), H.edge("c", "a", skip=True)], "c")
         out.append(dict(kind="raw", name=f"raw.abc.w{w1}-{w2}", spec=s, episodes=eps))
+    # fan-out: one producer, two readers with different windows, both visit orders; and a 12:1 rate ratio
+    for order in (("b", "c"), ("c", "b")):
+        wins = {"b": 1, "c": 4}
+        eps = [_timeline({"a": (1, 0, 1), "b": (2, 1, 1), "c": (5, 2, 1)}, [("a", order[0], (0,), False), ("a", order[1], (0, 2), False), ("b", "c", (0,), False)], {"a": na, "b": nb, "c": nc}) for (na, nb, nc) in [(16, 8, 3), (11, 5, 2)]]
+        s = H.spec({"a": H.node(32, 1), "b": H.node(16, 1), "c": H.node(4, 1)}, [H.edge("a", order[0], window=wins[order[0]]), H.edge("a", order[1], window=wins[order[1]]), H.edge("b", "c", window=2)], "c")
+        out.append(dict(kind="raw", name=f"raw.fanout.{order[0]}{order[1]}", spec=s, episodes=eps))
+    eps = [_timeline({"a": (1, 0, 1), "b": (12, 3, 2)}, [("a", "b", (0, 1), False), ("b", "a", (1,), True)], {"a": na, "b": nb}) for (na, nb) in [(40, 3), (28, 2)]]
+    s = H.spec({"a": H.node(64, 1), "b": H.node(4, 1)}, [H.edge("a", "b", window=3), H.edge("b", "a", skip=True)], "b")
+    out.append(dict(kind="raw", name="raw.ratio12", spec=s, episodes=eps))
+    # sinks (nodes nothing depends on): a slow sink that is still running when a fast, one-shot sink has already finished
+    # (pruning off must still execute the finished one inside the horizon)
+    for late in (11, 7):
+        eps = [_timeline({"a": (2, 0, 1), "b": (4, 2, 1), "s": (8, 5, 10), "f": (100, late, 1)},
+                         [("a", "b", (0,), False), ("b", "s", (0,), False), ("b", "f", (0,), False)], {"a": 8, "b": 4, "s": 2, "f": 1})]
+        s = H.spec({"a": H.node(32, 1), "b": H.node(16, 1), "s": H.node(8, 1), "f": H.node(4, 1)}, [H.edge("a", "b"), H.edge("b", "s", window=2), H.edge("b", "f")], "b")
+        out.append(dict(kind="raw", name=f"raw.sinks.f{late}", spec=s, episodes=eps))
     # fan-in where one producer never reaches some steps (steps with 0 messages) and bursts (several messages per step)
     eps = [_timeline({"a": (1, 0, 1), "c": (7, 0, 1), "b": (3, 2, 1)}, [("a", "b", (0,), False), ("c", "b", (0, 9), False)], {"a": 14, "c": 3, "b": 5}),
            _timeline({"a": (1, 0, 1), "c": (7, 0, 1), "b": (3, 2, 1)}, [("a", "b", (2,), False), ("c", "b", (1,), False)], {"a": 10, "c": 2, "b": 3})]
